@@ -10,6 +10,7 @@ package modbus
 // (spec/transport.spec); every Read delivers the next n bytes of it, any n, any error.
 
 //@ iface net.Conn.Read(p []byte) (n int, err error)
+//@   ghostset faults := old(faults) + ite(err != nil && (!errIs(err, os.ErrDeadlineExceeded) || errIs(err, io.EOF)), int(1), int(0))
 //@   ensures dyntype(err) != *packet.ErrorResponseRTU && dyntype(err) != *packet.ErrorResponseTCP && dyntype(err) != *ClientError
 //@   requires[C14] muState == 2
 //@   modifies p
@@ -23,6 +24,7 @@ package modbus
 //@   ghostset lastBuf := p
 
 //@ iface net.Conn.Write(p []byte) (n int, err error)
+//@   ghostset faults := old(faults) + ite(err != nil, int(1), int(0))
 //@   ensures dyntype(err) != *packet.ErrorResponseRTU && dyntype(err) != *packet.ErrorResponseTCP && dyntype(err) != *ClientError
 //@   requires[C14] muState == 2
 //@   requires[C19] bwCount > writes ==> p == bwBuf
@@ -30,6 +32,7 @@ package modbus
 //@   ghostset writes := old(writes) + 1
 
 //@ iface net.Conn.SetWriteDeadline(t time.Time) (err error)
+//@   ghostset faults := old(faults) + ite(err != nil, int(1), int(0))
 //@   ensures dyntype(err) != *packet.ErrorResponseRTU && dyntype(err) != *packet.ErrorResponseTCP && dyntype(err) != *ClientError
 //@   requires[C14] muState == 2
 //@   modifies nothing
@@ -95,7 +98,7 @@ package modbus
 
 //@ func (c *Client) do(ctx context.Context, data []byte, expectedLen int) (res []byte, err error)
 //@   requires c != nil && c.conn != nil && validClient(c) && ctx != nil
-//@   requires reads == hookReads && bwCount == writes
+//@   requires reads == hookReads && bwCount == writes && ghostsSane()
 //@   requires[C14] muState == 2
 //@   safety[C08,C07,C19]
 //@   modifies[C08] nothing
@@ -104,6 +107,9 @@ package modbus
 //@   ensures[C07] err == nil ==> len(res) >= expectedLen || errIs(lastErr, io.EOF)
 //@   ensures[C08] err != nil ==> isnil(res)
 //@   ensures[C08.classify] err != nil ==> dyntype(err) == *ClientError || err == ctxErr
+//@   ensures[C07.progress] err != nil ==> faults > old(faults) || streamPos - old(streamPos) > 260 || streamPos == old(streamPos) || (dyntype(err) == *ClientError && (dyntype(err.(*ClientError).Err) == *packet.ErrorResponseTCP || dyntype(err.(*ClientError).Err) == *packet.ErrorResponseRTU))
+//@   ensures[C07.exception] tcpClient(c) && streamLen - old(streamPos) == 9 && stream[old(streamPos)+7] & 128 != 0 && expectedLen > 9 && faults == old(faults) ==> err != nil && dyntype(err) == *ClientError && dyntype(err.(*ClientError).Err) == *packet.ErrorResponseTCP && err.(*ClientError).Err.(*packet.ErrorResponseTCP).UnitID == stream[old(streamPos)+6] && err.(*ClientError).Err.(*packet.ErrorResponseTCP).Function == stream[old(streamPos)+7] - 128 && err.(*ClientError).Err.(*packet.ErrorResponseTCP).Code == stream[old(streamPos)+8]
+//@   ensures[C07.exception] rtuClient(c) && streamLen - old(streamPos) == 5 && stream[old(streamPos)+1] & 128 != 0 && crcTrailer(stream[old(streamPos):old(streamPos)+5], 5) && expectedLen > 5 && faults == old(faults) ==> err != nil && dyntype(err) == *ClientError && dyntype(err.(*ClientError).Err) == *packet.ErrorResponseRTU && err.(*ClientError).Err.(*packet.ErrorResponseRTU).UnitID == stream[old(streamPos)] && err.(*ClientError).Err.(*packet.ErrorResponseRTU).Function == stream[old(streamPos)+1] - 128 && err.(*ClientError).Err.(*packet.ErrorResponseRTU).Code == stream[old(streamPos)+2]
 //@   ensures[C19] c.hooks != nil ==> hookReads - old(hookReads) == reads - old(reads)
 //@   ensures[C19] c.hooks != nil && writes > old(writes) ==> bwCount - old(bwCount) == writes - old(writes)
 //@   ensures[C19] writes - old(writes) <= 1 && bpCount == old(bpCount) && parseCount == old(parseCount)
@@ -111,7 +117,8 @@ package modbus
 //@   ensures[C14] muState == old(muState)
 //@   ghostset lastDoRes := res
 //@   loop 0
-//@     modifies received
+//@     modifies received, streamPos, reads, lastN, lastErr, lastBuf, hookReads, faults
+//@     invariant faults >= old(faults) && streamPos <= streamLen
 //@     invariant 0 <= total && total <= 260 && total == streamPos - old(streamPos)
 //@     invariant forall k in 0..total :: received[k] == stream[old(streamPos) + k]
 //@     invariant c.hooks != nil ==> hookReads - old(hookReads) == reads - old(reads)
@@ -119,7 +126,7 @@ package modbus
 
 //@ func (c *Client) Do(ctx context.Context, req packet.Request) (resp packet.Response, err error)
 //@   requires c != nil && validClient(c) && ctx != nil
-//@   requires reads == hookReads && bwCount == writes && bpCount == parseCount
+//@   requires reads == hookReads && bwCount == writes && bpCount == parseCount && ghostsSane()
 //@   requires[C14] muState == 0
 //@   safety[C08,C14,C19]
 //@   lockdiscipline[C14]
@@ -170,3 +177,111 @@ package modbus
 //@ func NewRTUClient() (res *Client)
 //@   safety[C07,C12]
 //@   ensures[C07,C08,C12] res != nil && rtuClient(res) && res.conn == nil
+
+// ---------------------------------------------------------------------------------------------
+// serialclient.go (environment: io.ReadWriteCloser with the same ghost stream)
+
+//@ iface io.ReadWriteCloser.Read(p []byte) (n int, err error)
+//@   ghostset faults := old(faults) + ite(err != nil && (!errIs(err, os.ErrDeadlineExceeded) || errIs(err, io.EOF)), int(1), int(0))
+//@   requires[C14] muState == 2
+//@   modifies p
+//@   ensures dyntype(err) != *packet.ErrorResponseRTU && dyntype(err) != *packet.ErrorResponseTCP && dyntype(err) != *ClientError
+//@   ensures 0 <= n && n <= len(p) && n <= streamLen - old(streamPos)
+//@   ensures forall k in 0..n :: p[k] == stream[old(streamPos) + k]
+//@   ensures forall k in n..len(p) :: p[k] == old(p[k])
+//@   ghostset streamPos := old(streamPos) + n
+//@   ghostset reads := old(reads) + 1
+//@   ghostset lastN := n
+//@   ghostset lastErr := err
+//@   ghostset lastBuf := p
+
+//@ iface io.ReadWriteCloser.Write(p []byte) (n int, err error)
+//@   ghostset faults := old(faults) + ite(err != nil, int(1), int(0))
+//@   requires[C14] muState == 2
+//@   requires[C19] bwCount > writes ==> p == bwBuf
+//@   modifies nothing
+//@   ensures dyntype(err) != *packet.ErrorResponseRTU && dyntype(err) != *packet.ErrorResponseTCP && dyntype(err) != *ClientError
+//@   ghostset writes := old(writes) + 1
+
+//@ iface io.ReadWriteCloser.Close() (err error)
+//@   requires[C14] muState == 2
+//@   modifies nothing
+
+//@ iface modbus.Flusher.Flush() (err error)
+//@   ghostset faults := old(faults) + ite(err != nil, int(1), int(0))
+//@   requires[C14] muState == 2
+//@   modifies nothing
+//@   ensures dyntype(err) != *packet.ErrorResponseRTU && dyntype(err) != *packet.ErrorResponseTCP && dyntype(err) != *ClientError
+//@   ghostset flushes := old(flushes) + 1
+
+//@ iface modbus.SerialClient.asProtocolErrorFunc(data []byte) (err error)
+//@   candidates packet.AsRTUErrorPacketWithCRC
+//@   modifies nothing
+
+//@ iface modbus.SerialClient.parseResponseFunc(data []byte) (res packet.Response, err error)
+//@   candidates packet.ParseRTUResponseWithCRC
+//@   requires[C19] bpCount > parseCount ==> data == bpBuf
+//@   modifies nothing
+//@   ghostset parseCount := old(parseCount) + 1
+
+//@ func (c *SerialClient) flush() (err error)
+//@   requires c != nil && (c.isFlusher ==> c.serialPort != nil && implements(c.serialPort, Flusher))
+//@   requires[C14] muState == 2
+//@   safety[C08]
+//@   modifies[C08] nothing
+//@   ensures[C08,C12] dyntype(err) != *packet.ErrorResponseRTU && dyntype(err) != *ClientError
+//@   ensures[C07] faults >= old(faults) && (err != nil ==> faults > old(faults))
+//@   ensures[C14] muState == old(muState)
+//@   ensures[C19] reads == old(reads) && hookReads == old(hookReads) && writes == old(writes) && bwCount == old(bwCount) && bpCount == old(bpCount) && parseCount == old(parseCount) && streamPos == old(streamPos)
+
+//@ func (c *SerialClient) do(ctx context.Context, data []byte, expectedLen int) (res []byte, err error)
+//@   requires c != nil && c.serialPort != nil && validSerial(c) && ctx != nil && (c.isFlusher ==> implements(c.serialPort, Flusher))
+//@   requires reads == hookReads && bwCount == writes && ghostsSane()
+//@   requires[C14] muState == 2
+//@   safety[C08,C07,C19]
+//@   modifies[C08] nothing
+//@   fresh[C07] res
+//@   ensures[C07,C12,C19] err == nil ==> len(res) == streamPos - old(streamPos) && 1 <= len(res) && len(res) <= 256 && forall k in 0..len(res) :: res[k] == stream[old(streamPos) + k]
+//@   ensures[C07] err == nil ==> len(res) >= expectedLen
+//@   ensures[C08] err != nil ==> isnil(res)
+//@   ensures[C08.classify] err != nil ==> dyntype(err) == *ClientError || err == ctxErr
+//@   ensures[C07.progress] err != nil ==> faults > old(faults) || streamPos - old(streamPos) > 256 || streamPos == old(streamPos) || (dyntype(err) == *ClientError && dyntype(err.(*ClientError).Err) == *packet.ErrorResponseRTU)
+//@   ensures[C07.exception] streamLen - old(streamPos) == 5 && stream[old(streamPos)+1] & 128 != 0 && crcTrailer(stream[old(streamPos):old(streamPos)+5], 5) && expectedLen > 5 && faults == old(faults) ==> err != nil && dyntype(err) == *ClientError && dyntype(err.(*ClientError).Err) == *packet.ErrorResponseRTU && err.(*ClientError).Err.(*packet.ErrorResponseRTU).UnitID == stream[old(streamPos)] && err.(*ClientError).Err.(*packet.ErrorResponseRTU).Function == stream[old(streamPos)+1] - 128 && err.(*ClientError).Err.(*packet.ErrorResponseRTU).Code == stream[old(streamPos)+2]
+//@   ensures[C19] c.hooks != nil ==> hookReads - old(hookReads) == reads - old(reads)
+//@   ensures[C19] c.hooks != nil && writes > old(writes) ==> bwCount - old(bwCount) == writes - old(writes)
+//@   ensures[C19] writes - old(writes) <= 1 && bpCount == old(bpCount) && parseCount == old(parseCount)
+//@   ensures[C12] dyntype(err) == *ClientError && dyntype(err.(*ClientError).Err) == *packet.ErrorResponseRTU ==> streamPos - old(streamPos) == 5 && crcTrailer(stream[old(streamPos):old(streamPos)+5], 5)
+//@   ensures[C14] muState == old(muState)
+//@   ghostset lastDoRes := res
+//@   loop 0
+//@     modifies received, streamPos, reads, lastN, lastErr, lastBuf, hookReads, faults, flushes
+//@     invariant faults >= old(faults) && streamPos <= streamLen
+//@     invariant 0 <= total && total <= 256 && total == streamPos - old(streamPos)
+//@     invariant forall k in 0..total :: received[k] == stream[old(streamPos) + k]
+//@     invariant c.hooks != nil ==> hookReads - old(hookReads) == reads - old(reads)
+//@     invariant writes == old(writes) + 1 && bwCount == old(bwCount) + ite(c.hooks != nil, int(1), int(0)) && bpCount == old(bpCount) && parseCount == old(parseCount)
+//@     invariant muState == old(muState)
+
+//@ func (c *SerialClient) Do(ctx context.Context, req packet.Request) (resp packet.Response, err error)
+//@   requires c != nil && validSerial(c) && ctx != nil && (c.isFlusher ==> c.serialPort != nil && implements(c.serialPort, Flusher))
+//@   requires reads == hookReads && bwCount == writes && bpCount == parseCount && ghostsSane()
+//@   requires[C14] muState == 0
+//@   safety[C08,C14,C19]
+//@   lockdiscipline[C14]
+//@   guarded[C14] serialPort, hooks
+//@   modifies[C08] nothing
+//@   ensures[C08] err != nil ==> nilish(resp)
+//@   ensures[C08] req == nil ==> err != nil && writes == old(writes) && reads == old(reads)
+//@   ensures[C08] req != nil && c.serialPort == nil ==> err != nil && writes == old(writes) && reads == old(reads)
+//@   ensures[C08.classify] err != nil ==> req == nil || c.serialPort == nil || dyntype(err) == *ClientError || err == ctxErr || parseCount > old(parseCount)
+//@   ensures[C14] muState == 0
+//@   ensures[C19] c.hooks != nil && parseCount > old(parseCount) ==> bpCount == old(bpCount) + 1 && parseCount == old(parseCount) + 1
+//@   ensures[C19] c.hooks != nil ==> hookReads - old(hookReads) == reads - old(reads)
+
+//@ func (c *SerialClient) Close() (err error)
+//@   requires c != nil
+//@   requires[C14] muState == 0
+//@   safety[C14,C08]
+//@   lockdiscipline[C14]
+//@   guarded[C14] serialPort
+//@   ensures[C14] muState == 0
